@@ -10,6 +10,7 @@
 Require Import Zrs.lib.RsPrelude Zrs.model.RingBuffer Zrs.model.BlockDec.
 Require Import Zrs.proofs.C04_Run Zrs.proofs.C06_Drain Zrs.proofs.C05_Block Zrs.proofs.C12_Fse Zrs.proofs.C14_Headers.
 Require Import Zrs.model.FseDec Zrs.gen.Generated Zrs.model.BitIO Zrs.model.BitRev64 Zrs.proofs.C03_BitRev64.
+Require Import Zrs.model.FseDec Zrs.model.HufDec Zrs.proofs.C03_Desc Zrs.proofs.C03_HufTable.
 Open Scope Z_scope.
 
 Theorem C03_window_never_faults : forall k ops, (1 <= k)%nat -> Forall op_contract ops -> forall s, Inv s ->
@@ -43,6 +44,23 @@ Theorem C03_bit_reader_counters_agree : forall src ops out, Forall op_ok ops -> 
   map snd out = map snd (rbr_run (rbr_new src) ops).
 Proof. exact counters_agree. Qed.
 
+(** the FSE table description reader returns a result or an error for EVERY byte string, alphabet and table-size limit:
+    its two loops end within their fuel (each step consumes at least one bit), it never gives back a bit it did not
+    read, and no probability below -1 can arise *)
+Theorem C03_table_description_reader_never_panics : forall max_symbol source max_log,
+  match read_probabilities max_symbol source max_log with RPanic _ => False | _ => True end.
+Proof. exact read_probabilities_never_panics. Qed.
+
+(** building the Huffman decoding table from ANY list of non-negative weights never panics: either the list is refused
+    or a table comes back -- the rank counters are indexed in range, the region start computed for the shortest codes
+    equals the table size (the source's assertion), no symbol's region reaches past the table (finding F12 was a panic
+    in a caller of this function) *)
+Theorem C03_huffman_table_construction_never_panics : forall ws, Forall (fun w => 0 <= w) ws ->
+  match build_table_from_weights ws with RPanic _ => False | _ => True end.
+Proof. exact build_table_from_weights_never_panics. Qed.
+
+Print Assumptions C03_table_description_reader_never_panics.
+Print Assumptions C03_huffman_table_construction_never_panics.
 Print Assumptions C03_bit_reader_never_panics.
 Print Assumptions C03_bit_reader_counters_agree.
 Print Assumptions C03_window_never_faults.
